@@ -5,6 +5,7 @@ package main
 import (
 	"fmt"
 	"go/ast"
+	"go/constant"
 	"go/token"
 	"go/types"
 	"strconv"
@@ -97,6 +98,11 @@ func (e *specEnv) eval(x ast.Expr) specVal {
 				return v
 			}
 		}
+		if e.pkg != nil {
+			if c, ok := e.pkg.Types.Scope().Lookup(x.Name).(*types.Const); ok {
+				return e.constVal(c)
+			}
+		}
 		e.errf("unknown name %s", x.Name)
 		return specVal{"0", tInt}
 	case *ast.UnaryExpr:
@@ -110,6 +116,17 @@ func (e *specEnv) eval(x ast.Expr) specVal {
 	case *ast.BinaryExpr:
 		return e.binary(x)
 	case *ast.SelectorExpr:
+		if id, ok := x.X.(*ast.Ident); ok {
+			if _, isVar := e.vars[id.Name]; !isVar && e.pkg != nil {
+				for _, ip := range e.pkg.Imports {
+					if ip.Name == id.Name {
+						if c, ok := ip.Types.Scope().Lookup(x.Sel.Name).(*types.Const); ok {
+							return e.constVal(c)
+						}
+					}
+				}
+			}
+		}
 		v := e.eval(x.X)
 		return e.field(v, x.Sel.Name)
 	case *ast.IndexExpr:
@@ -690,6 +707,17 @@ func (a *Act) evalSpecBool(st *State, x ast.Expr, li *loopInfo) Term {
 	return t
 }
 
+func (a *Act) evalSpecInt(st *State, x ast.Expr, li *loopInfo) Term {
+	var errs []string
+	pkg := a.tr.eng.pkgOf(a.fn)
+	e := &specEnv{a: a, tr: a.tr, pkg: pkg, st: st, old: a.entryState, vars: map[string]specVal{}, li: li, errs: &errs}
+	v := e.eval(x)
+	for _, m := range errs {
+		a.tr.specErr(fmt.Sprintf("%s: %s", fnName(a.fn), m))
+	}
+	return v.t
+}
+
 func (tr *Tr) specErr(msg string) {
 	for _, m := range tr.specErrs {
 		if m == msg {
@@ -801,6 +829,18 @@ func (a *Act) applyContract(st *State, callee *ssa.Function, fc *FuncContract, a
 		o := &Obligation{Name: fmt.Sprintf("%s#%d", base, tr.oblCount[base]), Kind: "pre", Fn: fname, Pos: loc, Src: c.text, Guard: st.reach, Goal: g}
 		tr.obls = append(tr.obls, o)
 	}
+	if rc := tr.rootAct.contract; rc != nil && len(rc.decreases) > 0 && len(fc.decreases) > 0 && a.parent == nil {
+		var callee, caller []Term
+		for _, d := range fc.decreases {
+			callee = append(callee, e.eval(d.expr).t)
+		}
+		re := &specEnv{a: tr.rootAct, tr: tr, pkg: rc.pkg, st: tr.rootAct.entryState, old: tr.rootAct.entryState, errs: &errs,
+			vars: tr.rootAct.bindContract(rc, st, tr.rootAct.args, nil, tr.root.Signature, true)}
+		for _, d := range rc.decreases {
+			caller = append(caller, re.eval(d.expr).t)
+		}
+		a.obligeNamed(st, "decreases", "call "+fc.name, lexLess(callee, caller))
+	}
 	if fc.panics == "may" {
 		ok := tr.freshConst("nopanic_"+lastName(fc.name), "Bool")
 		a.mayPanic(st, "call", pos, ok, tr.freshConst("panicval", "Val"))
@@ -811,7 +851,9 @@ func (a *Act) applyContract(st *State, callee *ssa.Function, fc *FuncContract, a
 		rt := sig.Results().At(i).Type()
 		results[i] = tr.freshConst("r_"+lastName(fc.name), a.sortOf(rt))
 	}
+	a.frameCallee = callee
 	a.frameForCall(st, fc, vars, pre)
+	a.frameCallee = nil
 	for i := range results {
 		a.assumeWF(st, sig.Results().At(i).Type(), results[i], 1)
 	}
@@ -846,6 +888,11 @@ func (c *clause) assumed() bool {
 func (a *Act) frameForCall(st *State, fc *FuncContract, vars map[string]specVal, pre *State) {
 	tr := a.tr
 	now := st.alloc
+	var inferred map[string]bool
+	inferredAll := true
+	if !fc.explicitFrame() && a.frameCallee != nil {
+		inferred, inferredAll = a.calleeMods(a.frameCallee)
+	}
 	mode := "default"
 	var compNames []string
 	for _, as := range fc.assigns {
@@ -874,31 +921,47 @@ func (a *Act) frameForCall(st *State, fc *FuncContract, vars map[string]specVal,
 	for _, n := range compNames {
 		listed[n] = true
 	}
-	for _, cn := range sortedKeys(tr.comps) {
-		c := tr.comps[cn]
-		if c.local {
-			continue
-		}
-		prev := tr.heapOf(st, c)
+	preserved := map[string]bool{}
+	for _, n := range fc.preserves {
+		preserved[strings.TrimPrefix(n, "comp:")] = true
+	}
+	preSt := st.copy()
+	keepOld := func(key []Term) Term { return app("<=", key[0], now) }
+	st.prov = &prov{kind: "custom", prev: preSt, hint: "call", resolve: func(c *Component, prev *HeapV) *HeapV {
+		cn := c.name
 		switch {
+		case c.local:
+			return prev
+		case preserved[cn] && len(c.keySorts) > 0:
+			return tr.heapFrame(prev, keepOld, "call_"+cn)
+		case preserved[cn]:
+			return prev
 		case c.value:
 			// callee may only allocate (C02 frame, checked on the callee)
-			st.heap[cn] = tr.heapFrame(prev, func(key []Term) Term { return app("<=", key[0], now) }, "call_"+cn)
+			return tr.heapFrame(prev, keepOld, "call_"+cn)
 		case mode == "nothing" && len(c.keySorts) == 0:
-			// unchanged
+			return prev
 		case mode == "nothing":
-			if strings.HasPrefix(cn, "cell:") || strings.HasPrefix(cn, "elem:") || strings.HasPrefix(cn, "m") {
-				st.heap[cn] = tr.heapFrame(prev, func(key []Term) Term { return app("<=", key[0], now) }, "call_"+cn)
-			}
+			return tr.heapFrame(prev, keepOld, "call_"+cn)
 		case len(c.keySorts) == 0:
-			// nullary ghost component: kept unless listed (or mode default)
-			if mode == "default" || listed[cn] {
-				st.heap[cn] = tr.newHeapBase(c, "call_"+cn)
+			if (mode == "default" && (inferredAll || inferred[cn])) || listed[cn] {
+				return tr.newHeapBase(c, "call_"+cn)
 			}
+			return prev
 		case mode == "listed" && !listed[cn]:
-			st.heap[cn] = tr.heapFrame(prev, func(key []Term) Term { return app("<=", key[0], now) }, "call_"+cn)
+			return tr.heapFrame(prev, keepOld, "call_"+cn)
+		case mode == "default" && !inferredAll && !inferred[cn]:
+			return tr.heapFrame(prev, keepOld, "call_"+cn)
 		default:
-			tr.havocCells(st, c, "call")
+			if keep := preSt.keepOwned(cn); keep != nil {
+				return tr.heapFrame(prev, keep, "call_"+cn)
+			}
+			return tr.newHeapBase(c, "call_"+cn)
+		}
+	}}
+	for name := range st.heap {
+		if c := tr.comps[name]; c != nil && !c.local {
+			delete(st.heap, name)
 		}
 	}
 	na := tr.freshConst("alloc_call", "Int")
@@ -930,8 +993,20 @@ func (fc *FuncContract) mods(tr *Tr, mods map[string]bool) bool {
 			mods[cn] = true
 		}
 	}
-	if mode == "default" {
+	if mode == "default" && len(fc.preserves) == 0 {
 		return true
+	}
+	if mode == "default" {
+		pres := map[string]bool{}
+		for _, n := range fc.preserves {
+			pres[strings.TrimPrefix(n, "comp:")] = true
+		}
+		for cn, c := range tr.comps {
+			if !c.local && !pres[cn] {
+				mods[cn] = true
+			}
+		}
+		return false
 	}
 	if mode == "nothing" {
 		for cn, c := range tr.comps {
@@ -1034,4 +1109,21 @@ func (tr *Tr) typeInvFor(t types.Type, x Term, st *State) Term {
 		tr.specErr("invariant: " + m)
 	}
 	return And(out...)
+}
+
+func (e *specEnv) constVal(c *types.Const) specVal {
+	switch c.Val().Kind() {
+	case constant.Int:
+		n, _ := constant.Int64Val(c.Val())
+		return specVal{IntLit(n), tInt}
+	case constant.String:
+		return specVal{StrLit(constant.StringVal(c.Val())), tString}
+	case constant.Bool:
+		if constant.BoolVal(c.Val()) {
+			return specVal{"true", tBool}
+		}
+		return specVal{"false", tBool}
+	}
+	e.errf("unsupported constant %s", c.Name())
+	return specVal{"0", tInt}
 }
